@@ -96,3 +96,22 @@ func verifH_C02_dispatch_server() {
 	verifAssert(order == "12", "events of one emitter are handed to the receiving application in the order they were sent")
 	verifReach("end")
 }
+
+// C02_dispatch_client: the same as C02_dispatch_server on the client: two EVENT packets for one namespace arriving in
+// one Engine.IO payload through the real Manager.onEIOPacket -> onParserFinish -> clientSocket.onPacket -> handler.
+//
+//verif:unwind 12
+//verif:preempt 2
+func verifH_C02_dispatch_client() {
+	var log []verifEncoded
+	m, cl := verifClientWorld(&verifFrameParser{log: &log}, "/")
+	order := ""
+	cl["/"].OnEvent("first", func() { order += "1" })
+	cl["/"].OnEvent("second", func() { order += "2" })
+	verifThreads(true)
+	m.onEIOPacket(verifMsg("2/,first"), verifMsg("2/,second"))
+	verifWaitQuiescent()
+	verifAssert(len(order) == 2, "both events reach their handlers exactly once")
+	verifAssert(order == "12", "events of one emitter are handed to the receiving application in the order they were sent")
+	verifReach("end")
+}
